@@ -101,6 +101,36 @@ theorem cache_only_next (R : Renderable ρ O) (s : St ρ O) (op : Op) (hop : op 
   | rnoise => rfl
   | termSize z => rfl
 
+/-- NO RE-RENDER OVER A HISTORY. For every renderable (pure or not), every construction whose
+    `_cached` decision is on (by `cached_decision`: definite frame count ∧ (`cache is True` ∨
+    `frame_count ≤ cache`) — INDEFINITE sources and cache-off are thereby excluded, and
+    `uncached_rerenders_counterexample` shows the hypothesis is needed), every history `pre` and every
+    stretch of further operations containing no `set_render_size` / `set_frame_duration` /
+    `set_render_args` (`set_padding`, seeks, `close`, `loop =`, `Renderable.seek`, changes of the
+    renderable's own size/duration and terminal resizes are all allowed): the requests handed to
+    `_render_` during the stretch (`new`, the part of the request log added by it) contain each
+    frame number at most once. -/
+theorem render_calls_in_stretch (R : Renderable ρ O) (i : Init) (r0 : ρ) (s0 : St ρ O)
+    (h0 : init i r0 = .ok s0) (hc : cachedDecision i.count i.cache = true)
+    (pre stretch : List Op) (hs : ∀ op ∈ stretch, NoSettingChange op) :
+    ∃ new : List Req,
+      (run R s0 (pre ++ stretch)).1.calls = new ++ (run R s0 pre).1.calls ∧
+      ∀ k : Int, (new.map (·.off)).count k ≤ 1 := by
+  have hJ := cachingInv_run R pre s0 (cachingInv_init i r0 s0 h0 hc)
+  have hI : StretchInv (run R s0 pre).1 (run R s0 pre).1 [] :=
+    ⟨rfl, List.nodup_nil, rfl, fun _ q hq => absurd hq (by simp)⟩
+  obtain ⟨new, h1, h2, _, _⟩ := stretch_run R (run R s0 pre).1 stretch hs _ [] hJ hI
+  refine ⟨new, by rw [run_append]; exact h1, ?_⟩
+  exact List.nodup_iff_count.mp h2
+
+/-- the same from any state satisfying the structural invariant of an open caching iterator -/
+theorem render_calls_in_stretch_from (R : Renderable ρ O) (s : St ρ O) (hJ : CachingInv s)
+    (stretch : List Op) (hs : ∀ op ∈ stretch, NoSettingChange op) :
+    ∃ new : List Req, (run R s stretch).1.calls = new ++ s.calls ∧ (new.map (·.off)).Nodup := by
+  have hI : StretchInv s s [] := ⟨rfl, List.nodup_nil, rfl, fun _ q hq => absurd hq (by simp)⟩
+  obtain ⟨new, h1, h2, _, _⟩ := stretch_run R s stretch hs s [] hJ hI
+  exact ⟨new, h1, h2⟩
+
 /-- CACHED DECISION. `_cached` ⇔ the source is definite and (`cache is True` or
     `frame_count <= cache`); it is what a constructed iterator carries. -/
 theorem cached_decision (count : Option Nat) (cache : CacheArg) :
@@ -169,7 +199,28 @@ theorem icached_decision (n : Nat) (rep : Int) (cache : CacheArg) :
 
 end image_iterator
 
+/-- with caching off the statement of `render_calls_in_stretch` fails: two loops over two frames
+    request frame 0 twice (so `cachedDecision … = true` is a needed hypothesis) -/
+theorem uncached_rerenders_counterexample :
+    ∃ s0 : St Nat TOut,
+      init ⟨some 2, 2, .flag false, .exact 0 0 0 0 0, none, ⟨1, 1⟩, .ms 7, 0, ⟨20, 6⟩⟩ 0 = .ok s0 ∧
+      ((run (testR ⟨some 2, 0, none, none⟩) s0 [.next, .next, .next]).1.calls.map (·.off)).count 0 = 2 :=
+  ⟨_, rfl, by decide⟩
+
 /-! non-vacuity -/
+
+/-- `render_calls_in_stretch` is about runs that do render: cached, two loops over three frames,
+    `next` six times with a `set_padding` and a seek in between — six frames served, three requests -/
+example : ∃ s0 : St Nat TOut,
+    init ⟨some 3, 2, .flag true, .exact 0 0 0 0 0, none, ⟨1, 1⟩, .ms 7, 0, ⟨20, 6⟩⟩ 0 = .ok s0 ∧
+    cachedDecision (some 3) (.flag true) = true ∧
+    (∀ op ∈ [Op.next, .next, .setPadding (.exact 1 0 0 0 0), .next, .next, .seek 0 .start, .next, .next],
+      NoSettingChange op) ∧
+    (run (testR ⟨some 3, 0, none, none⟩) s0
+      [.next, .next, .setPadding (.exact 1 0 0 0 0), .next, .next, .seek 0 .start, .next, .next]).1.calls.map (·.off)
+      = [2, 1, 0] :=
+  ⟨_, rfl, rfl, by simp [NoSettingChange], by decide⟩
+
 example : ValidCache (.limit 3) ∧ ValidCache (.flag false) := ⟨by simp [ValidCache], trivial⟩
 example : Function.Injective iKeyDemo := fun a b h => by cases a; cases b; simp_all [iKeyDemo]
 example : ∃ s : ISt (Nat × Nat) (Nat × Nat), iinit ⟨3, 2, .flag true, ⟨3, 0⟩, 0⟩ = .ok s ∧ s.cached = true :=
